@@ -148,8 +148,21 @@ def eval_moved_inter(prop, fam, a, b):
     v0 = MOVED_V[0]
     if a[0] == 'Point' and b[0] != 'Point':
         a, b = b, a
+    # (1) the caller is free to move what a query returned: a later query on freshly built equal operands is unaffected
+    la0, lb0 = lib.to_lib(a), lib.to_lib(b)
+    r0 = lib.call(intersection, la0, lb0)
+    if hasattr(r0, 'move') and not isinstance(r0, lib.Raised):
+        lib.call(r0.move, lib.V(MOVED_V[2]))
+        for form, pair in (('ab', (a, b)), ('ba', (b, a))):
+            r = lib.call(intersection, lib.to_lib(pair[0]), lib.to_lib(pair[1]))
+            ok, why = lib.matches(r, e0)
+            if not ok:
+                return cellname, [Viol('%s|moved|%s|%s,%s|%s-on-fresh-operands-after-an-earlier-result-was-moved' % (prop, form, a[0], b[0], why), core.enc((a, b)), core.enc(e0),
+                                       lib.describe(r), 'intersection(a, b); its result moved by the caller; intersection of freshly built equal operands')]
+    # (2) operands built from caller-owned Points that serve other, moved, objects before and after
     a_start = X.xform(a, ID3, 1, X.neg(v0))
-    la, lb = lib.to_lib(a_start), lib.to_lib(b)
+    with lib.shared_points():
+        la, lb = lib.to_lib(a_start), lib.to_lib(b)
     lib.call(intersection, la, lb)
     lib.call(hash, la)
     ret = lib.call(la.move, lib.V(v0))
